@@ -412,3 +412,25 @@ _SIGN_STATELESS = {'kind': 'premise', 'name': 'sign-has-no-state', 'file': 'src/
 for _pid in ('C09', 'C10', 'C11'):
     PROPS[_pid]['tools'] = [_SIGN_STATELESS] + _CTRL_TOOL
     PROPS[_pid]['assumptions'] = PROPS[_pid]['assumptions'] + ['the native oracle run (witness search controller) is a bounded complement: it is independent of private signatures of sign.rs and reaches page sizes up to the 16-bit offset limit, which the Kani shapes do not; it is listed under bounded_standins']
+
+# ---- syntactic premises of the per-call proofs: the objects / modules keep no hidden state between calls -------------
+_NO_STATE = [r'\bCell\s*<', r'\bRefCell\s*<', r'\bstatic\s+mut\b', r'thread_local!', r'\bAtomic[A-Z]\w*', r'\bMutex\b', r'\bRwLock\b', r'\bOnce(Cell|Lock)\b', r'\bunsafe\b']
+def _premise(name, file, text, struct=None, fields=None, exactly=None, forbid=None):
+    d = {'kind': 'premise', 'name': name, 'file': file, 'text': text, 'forbid': (forbid or []) + list(_NO_STATE)}
+    if struct:
+        d['struct'], d['fields'] = struct, fields
+    if exactly:
+        d['exactly'] = exactly
+    return d
+_P_FRAME = _premise('frame-codec-has-no-state', 'libs/core/src/frame.rs', 'frame.rs keeps no state between calls: no interior mutability, mutable statics, thread-locals or unsafe; its only lazy static is the compiled regex (immutable). '
+                    'So the per-call contracts (to_bytes == enc, from_bytes == dec, checksum, parse_hex) describe every call of every sequence', exactly=[(r'lazy_static!', 1), (r'\bstatic\s+ref\b', 1)])
+_P_MESSAGE = _premise('message-mapping-has-no-state', 'libs/core/src/message.rs', 'message.rs keeps no state between calls (no interior mutability, statics, thread-locals, unsafe)', exactly=[(r'lazy_static!', 0), (r'\bstatic\s+\w+\s*:', 0)])
+_P_PAGE = _premise('page-module-has-no-state', 'libs/core/src/page.rs', 'page.rs keeps no state outside the Page value itself (no interior mutability, statics, thread-locals, unsafe)', exactly=[(r'lazy_static!', 0), (r'\bstatic\s+\w+\s*:', 0)])
+_P_SIGNTYPE = _premise('sign-type-module-has-no-state', 'libs/core/src/sign_type.rs', 'sign_type.rs keeps no state between calls', exactly=[(r'lazy_static!', 0), (r'\bstatic\s+\w+\s*:', 0)])
+_P_SERIAL = _premise('serial-bus-has-no-state', 'libs/serial/src/serial_sign_bus.rs', 'a SerialSignBus is exactly its port: nothing is carried from one exchange to the next, which is what lets one exchange from a fresh bus stand for every exchange of a conversation',
+                     struct='SerialSignBus', fields=['port: P'], exactly=[(r'lazy_static!', 0), (r'\bstatic\s+\w+\s*:', 0)])
+_P_ODK = _premise('bridge-has-no-state', 'libs/testing/src/odk.rs', 'an Odk is exactly its port and its bus: nothing is carried from one line to the next',
+                  struct='Odk', fields=['port: P', 'bus: B'], exactly=[(r'lazy_static!', 0), (r'\bstatic\s+\w+\s*:', 0)])
+for _pid, _ps in (('C01', [_P_FRAME]), ('C02', [_P_FRAME]), ('C03', [_P_FRAME]), ('C04', [_P_MESSAGE, _P_FRAME]), ('C05', [_P_MESSAGE, _P_FRAME]),
+                  ('C06', [_P_PAGE]), ('C07', [_P_PAGE]), ('C15', [_P_FRAME]), ('C16', [_P_SERIAL]), ('C18', [_P_SERIAL]), ('C17', [_P_ODK, _P_SERIAL]), ('C19', [_P_SIGNTYPE])):
+    PROPS[_pid]['tools'] = _ps + PROPS[_pid].get('tools', [])
